@@ -13,10 +13,11 @@ open Dawn
 theorem extraction_complete : Extracted.Build.extractionErrors = [] := by decide
 
 /-- `targetInfo`: the fields of a record, their JSON names, all `omitempty` (so an empty record is `{}` and a
-missing field decodes to the zero value: `Rec` needs no optional fields); `Runs` is the D8 repair -/
+missing field decodes to the zero value; an empty `Attrs` is the model's `attrs = none`); `Runs` is the D8 repair, `Attrs`
+the D32 repair -/
 theorem fields_ok : Extracted.Build.targetInfoFields =
     [("Doc", "doc,omitempty"), ("Dependencies", "dependencies,omitempty"), ("Data", "stamp,omitempty"),
-     ("Rerun", "rerun,omitempty"), ("Runs", "runs,omitempty")] := by decide
+     ("Rerun", "rerun,omitempty"), ("Runs", "runs,omitempty"), ("Attrs", "attrs,omitempty")] := by decide
 
 /-- the kind → directory rule of `targetInfoPath`: kind `""` is `target`, an empty name is `BUILD.dawn`,
 the file is `PathEscape(pkg[2:] + "/" + name)` in the directory `kind + "s"` -/
@@ -51,6 +52,9 @@ theorem saveTargetInfo_ok : Extracted.Build.saveTargetInfo = Expected.Build.save
 theorem loadTargetInfo_ok : Extracted.Build.loadTargetInfo = Expected.Build.loadTargetInfo := rfl
 theorem targetInfoPath_ok : Extracted.Build.targetInfoPath = Expected.Build.targetInfoPath := rfl
 theorem stamp_ok : Extracted.Build.stamp = Expected.Build.stamp := rfl
+/-- `function.attrs()`: the digest of `f.deps`, `len(f.sources)` and the generated files relative to the root, in order
+(the model's `attrsOf`); compared with `info.Attrs` in `Evaluate` (`evaluate_ok`), written by the success record only -/
+theorem fnAttrs_ok : Extracted.Build.fnAttrs = Expected.Build.fnAttrs := rfl
 theorem gc_ok : Extracted.Build.gc = Expected.Build.gc := rfl
 theorem link_ok : Extracted.Build.link = Expected.Build.link := rfl
 theorem run_ok : Extracted.Build.run = Expected.Build.run := rfl
